@@ -538,6 +538,9 @@ namespace bloch::runtime {
                              "RuntimeEvaluator is single-use; construct a new instance per run");
         }
         m_executed = true;
+#ifdef BLOCH_VERIF
+        verif::interpreterThread() = std::this_thread::get_id();
+#endif
         m_functions.clear();
         m_env.clear();
         m_frameBases.clear();
@@ -578,6 +581,10 @@ namespace bloch::runtime {
             m_gcCv.notify_all();
             if (m_gcThread.joinable())
                 m_gcThread.join();
+#ifdef BLOCH_VERIF
+            if (verif::sinkOn())
+                verif::emit("{\"e\":\"join\",\"th\":" + std::to_string(verif::threadTag()) + "}");
+#endif
         }
         runCycleCollector();
         // Ensure warnings appear before any normal echo output
@@ -589,8 +596,13 @@ namespace bloch::runtime {
     RuntimeEvaluator::~RuntimeEvaluator() {
         m_stopGc = true;
         m_gcCv.notify_all();
-        if (m_gcThread.joinable())
+        if (m_gcThread.joinable()) {
             m_gcThread.join();
+#ifdef BLOCH_VERIF
+            if (verif::sinkOn())
+                verif::emit("{\"e\":\"join\",\"th\":" + std::to_string(verif::threadTag()) + ",\"dtor\":1}");
+#endif
+        }
         // Drop every remaining object reference now, while the class table, the simulator and
         // the qubit tables are still alive. Members are destroyed in reverse declaration order,
         // so m_classTable would otherwise die before m_env / m_returnValue, and the object
@@ -1282,6 +1294,10 @@ namespace bloch::runtime {
         m_stopGc = false;
         m_gcRequested = false;
         m_gcThreadStarted = true;
+#ifdef BLOCH_VERIF
+        if (verif::sinkOn())
+            verif::emit("{\"e\":\"timer_start\",\"th\":" + std::to_string(verif::threadTag()) + "}");
+#endif
         m_gcThread = std::thread([this]() {
             std::unique_lock<std::mutex> lock(m_gcMutex);
             while (!m_stopGc.load()) {
@@ -1294,8 +1310,18 @@ namespace bloch::runtime {
 #endif
                 if (m_stopGc.load())
                     break;
+#ifdef BLOCH_VERIF
+                // logged BEFORE the flag is set: a 'collect' that observed this request is then
+                // always logged after it
+                if (verif::sinkOn())
+                    verif::emit("{\"e\":\"tick\",\"th\":" + std::to_string(verif::threadTag()) + "}");
+#endif
                 requestGc();
             }
+#ifdef BLOCH_VERIF
+            if (verif::sinkOn())
+                verif::emit("{\"e\":\"timer_exit\",\"th\":" + std::to_string(verif::threadTag()) + "}");
+#endif
         });
     }
 
@@ -1303,6 +1329,8 @@ namespace bloch::runtime {
     void RuntimeEvaluator::requestGc() {
         if (verif::gc().suppressRequests)
             return;
+        if (verif::sinkOn() && verif::threadTag() == 0)
+            verif::emit("{\"e\":\"request\",\"th\":0}");
         m_gcRequested = true;
     }
 #else
@@ -1398,7 +1426,7 @@ namespace bloch::runtime {
         }
 #ifdef BLOCH_VERIF
         if (verif::sinkOn())
-            verif::emit("{\"e\":\"collect\",\"at\":" + std::to_string(verif::gc().counter) +
+            verif::emit("{\"e\":\"collect\",\"th\":" + std::to_string(verif::threadTag()) + ",\"at\":" + std::to_string(verif::gc().counter) +
                         ",\"objects\":" + std::to_string(objects.size()) + ",\"cleared\":" +
                         std::to_string(unreachable.size()) + "}");
 #endif
